@@ -423,7 +423,6 @@ func (r *Replica) Alive() bool {
 	return r.App.VerifAlive()
 }
 
-
 // RawBlock drives one block directly over ABCI (raw mode: no Tendermint validation), used for shadow
 // twins that must see the same header with a different transaction list. Returns the recorded attempt.
 func (r *Replica) RawBlock(cb *ChainBlock, begin abci.RequestBeginBlock, txs [][]byte) *BlockAttempt {
